@@ -38,7 +38,7 @@ CONSTANTS
   CrossThread,    \* may a thread use span handles created by another thread?
   TrackCut,       \* feed ring pushes / drains to the ghost (needed for the cut signature)
   FixRecv, FixFifo, FixCancelDefault, FixEmptyToken, FixStackFull, FixForceStart, FixReentrant, FixInSpan, FixExitOrder,
-  AdapterKinds, InnerKinds, MaxFuts, MaxPolls,
+  AdapterKinds, InnerKinds, MaxFuts, MaxPolls, DistinctOps,
   None
 
 Zero == 0
@@ -56,6 +56,8 @@ VARIABLES
   hs,       \* thread -> stack of open handles [k: "g"|"c"|"l", n, live] (what the caller holds)
   spans,    \* name -> thread-safe span [tok, cid, props, st]
   lsets,    \* name -> collected local spans
+  pushed,   \* <<span, set>> pairs already attached (the same set under the same parent twice would
+            \* legitimately be delivered twice: excluded from every menu, DESIGN.md 3.5)
   futs,     \* name -> adapter [h, kind, done, polls]: a span bound to a future / stream / sink (in_span), or enter_on_poll
   cph, ci, batch, cown,   \* collector: phase, receiver index, batch, owner (0 = background, t = flush by t)
   active,   \* collect id -> [colls, dang]
@@ -65,10 +67,14 @@ VARIABLES
   a,        \* ghost: Abs state
   hist      \* behaviour so far (for replay)
 
-vars == <<tst, reg, ring, pend, cur, inop, stack, hs, spans, lsets, futs, cph, ci, batch, cown, active,
+vars == <<tst, reg, ring, pend, cur, inop, stack, hs, spans, lsets, pushed, futs, cph, ci, batch, cown, active,
           nid, nops, natt, ncyc, nfl, pc, quiet, a, hist>>
-view == <<tst, reg, ring, pend, cur, inop, stack, hs, spans, lsets, futs, cph, ci, batch, cown, active,
-          nid, nops, natt, ncyc, nfl, pc, quiet, a>>
+\* `hist` is not part of a state's identity - except, when DistinctOps is set, the names of the calls
+\* made: where most calls are no-ops (no reporter, feature off) different programs would otherwise
+\* end in the same state and only one of them would be printed for replay
+OpNames == [i \in DOMAIN hist |-> IF "op" \in DOMAIN hist[i] THEN hist[i].op ELSE hist[i].ev]
+view == <<tst, reg, ring, pend, cur, inop, stack, hs, spans, lsets, pushed, futs, cph, ci, batch, cown, active,
+          nid, nops, natt, ncyc, nfl, pc, quiet, a, IF DistinctOps THEN OpNames ELSE <<>>>>
 
 NS == 99    \* NOT_SAMPLED_COLLECT_ID
 
@@ -80,7 +86,7 @@ Init ==
   /\ ring = [t \in Threads |-> <<>>] /\ pend = [t \in Threads |-> <<>>]
   /\ cur = [t \in Threads |-> <<>>] /\ inop = [t \in Threads |-> None]
   /\ stack = [t \in Threads |-> <<>>] /\ hs = [t \in Threads |-> <<>>]
-  /\ spans = A!EmptyFn /\ lsets = A!EmptyFn /\ futs = A!EmptyFn
+  /\ spans = A!EmptyFn /\ lsets = A!EmptyFn /\ futs = A!EmptyFn /\ pushed = {}
   /\ cph = "idle" /\ ci = 0 /\ batch = <<>> /\ cown = 0
   /\ active = A!EmptyFn
   /\ nid = [t \in Threads |-> 0] /\ nops = 0 /\ natt = 0 /\ ncyc = 0 /\ nfl = 0 /\ pc = [t \in Threads |-> 1]
@@ -188,7 +194,7 @@ Root(t, tr, smp) ==
   /\ Begin(t, IF rec /\ smp THEN <<IF FixForceStart THEN Force(start) ELSE Send(start)>> ELSE <<>>,
            Ev(t, "root") @@ [h |-> h, tr |-> tr, smp |-> smp, rpar |-> 1000 + tr],
            Rt(t, "root") @@ (IF rec THEN [h |-> h, cid |-> cid, id |-> h] ELSE [h |-> h]))
-  /\ UNCHANGED <<stack, hs, lsets, futs, natt>>
+  /\ UNCHANGED <<stack, hs, lsets, futs, pushed, natt>>
 
 \* a root created from an extracted context: SpanContext::from_span(src) (src a span handle), or
 \* SpanContext::current_local_parent() (src = 0); w3c: through encode / decode of a traceparent
@@ -211,7 +217,7 @@ RootCtx(t, src, w3c) ==
            Ev(t, "rootctx") @@ [h |-> h, w3c |-> w3c] @@ (IF src = 0 THEN A!EmptyFn ELSE [src |-> src]),
            (IF boom THEN [panic |-> "index out of bounds"] ELSE A!EmptyFn) @@
            Rt(t, "rootctx") @@ [ctx |-> ctx] @@ (IF rec THEN [h |-> h, cid |-> cid, id |-> h] ELSE [h |-> h]))
-  /\ UNCHANGED <<stack, hs, lsets, futs, natt>>
+  /\ UNCHANGED <<stack, hs, lsets, futs, pushed, natt>>
 
 Child(t, ps, multi) ==
   LET h == New(t)
@@ -223,7 +229,7 @@ Child(t, ps, multi) ==
   /\ Bump(t)
   /\ Begin(t, <<>>, Ev(t, "child") @@ [h |-> h, ps |-> ps, multi |-> multi],
            Rt(t, "child") @@ (IF ~noop /\ tok # <<>> THEN [h |-> h, id |-> h] ELSE [h |-> h]))
-  /\ UNCHANGED <<stack, hs, lsets, futs, natt>>
+  /\ UNCHANGED <<stack, hs, lsets, futs, pushed, natt>>
 
 \* Span::enter_with_local_parent: the top span line's token with the cursor as parent
 ChildLocal(t) ==
@@ -235,13 +241,13 @@ ChildLocal(t) ==
   /\ Bump(t)
   /\ Begin(t, <<>>, Ev(t, "childl") @@ [h |-> h],
            Rt(t, "childl") @@ (IF has /\ tok # <<>> THEN [h |-> h, id |-> h] ELSE [h |-> h]))
-  /\ UNCHANGED <<stack, hs, lsets, futs, natt>>
+  /\ UNCHANGED <<stack, hs, lsets, futs, pushed, natt>>
 
 MkNoop(t) ==
   /\ spans' = A!Put(spans, New(t), [tok |-> <<>>, cid |-> 0, props |-> <<>>, st |-> "noop", own |-> t])
   /\ Bump(t)
   /\ Begin(t, <<>>, Ev(t, "mknoop") @@ [h |-> New(t)], Rt(t, "mknoop"))
-  /\ UNCHANGED <<stack, hs, lsets, futs, natt>>
+  /\ UNCHANGED <<stack, hs, lsets, futs, pushed, natt>>
 
 SetLp(t, h) ==
   LET g == New(t)
@@ -253,7 +259,7 @@ SetLp(t, h) ==
   /\ hs' = [hs EXCEPT ![t] = Append(@, [k |-> "g", n |-> g, live |-> live, full |-> (spans[h].st = "live" /\ ~live)])]
   /\ Bump(t)
   /\ Begin(t, <<>>, Ev(t, "setlp") @@ [g |-> g, h |-> h], Rt(t, "setlp"))
-  /\ UNCHANGED <<spans, lsets, futs, natt>>
+  /\ UNCHANGED <<spans, lsets, futs, pushed, natt>>
 
 DropG(t) ==
   LET x == TopH(t)
@@ -264,7 +270,7 @@ DropG(t) ==
   /\ hs' = [hs EXCEPT ![t] = Front(@)]
   /\ Begin(t, cmds, Ev(t, "dropg") @@ [g |-> x.n],
            IF x.full /\ ~FixStackFull THEN Rt(t, "dropg") @@ [panic |-> "debug_assert token.is_some()"] ELSE Rt(t, "dropg"))
-  /\ UNCHANGED <<spans, lsets, futs, nid, natt>>
+  /\ UNCHANGED <<spans, lsets, futs, pushed, nid, natt>>
 
 LcStart(t) ==
   LET c == New(t) live == Enabled /\ Len(stack[t]) < SCap IN
@@ -273,7 +279,7 @@ LcStart(t) ==
   /\ hs' = [hs EXCEPT ![t] = Append(@, [k |-> "c", n |-> c, live |-> live, full |-> FALSE])]
   /\ Bump(t)
   /\ Begin(t, <<>>, Ev(t, "lcstart") @@ [c |-> c], Rt(t, "lcstart"))
-  /\ UNCHANGED <<spans, lsets, futs, natt>>
+  /\ UNCHANGED <<spans, lsets, futs, pushed, natt>>
 
 LcCollect(t) ==
   LET x == TopH(t) ls == New(t) IN
@@ -283,7 +289,36 @@ LcCollect(t) ==
   /\ hs' = [hs EXCEPT ![t] = Front(@)]
   /\ Bump(t)
   /\ Begin(t, <<>>, Ev(t, "lccollect") @@ [c |-> x.n, ls |-> ls], Rt(t, "lccollect"))
-  /\ UNCHANGED <<spans, natt, futs>>
+  /\ UNCHANGED <<spans, natt, futs, pushed>>
+
+\* LocalCollector::collect() / dropping a local-parent guard while local spans recorded in that
+\* scope are still open: they are closed at that moment (C17, C18).  Only for the outermost scope:
+\* with another span line underneath, the later drop of those local spans would meet a line of
+\* another epoch (the documented precondition: release in reverse order).
+HasOpenAbove(t, kind) ==
+  /\ Len(stack[t]) = 1 /\ Len(hs[t]) >= 2
+  /\ hs[t][1].k = kind /\ hs[t][1].live
+  /\ \A i \in 2..Len(hs[t]) : hs[t][i].k = "l"
+Orphan(t) == [i \in 1..(Len(hs[t]) - 1) |-> [hs[t][i + 1] EXCEPT !.live = FALSE]]
+
+LcCollectOpen(t) ==
+  LET ls == New(t) IN
+  /\ HasOpenAbove(t, "c") /\ Cardinality(DOMAIN lsets) < MaxLs
+  /\ lsets' = A!Put(lsets, ls, Top(t).q)
+  /\ stack' = [stack EXCEPT ![t] = <<>>]
+  /\ hs' = [hs EXCEPT ![t] = Orphan(t)]
+  /\ Bump(t)
+  /\ Begin(t, <<>>, Ev(t, "lccollect") @@ [c |-> hs[t][1].n, ls |-> ls], Rt(t, "lccollect"))
+  /\ UNCHANGED <<spans, natt, futs, pushed>>
+
+DropGOpen(t) ==
+  LET tok == Sampled(Top(t).tok)
+      cmds == IF tok # <<>> THEN <<Send(Submit(Top(t).q, tok))>> ELSE <<>> IN
+  /\ HasOpenAbove(t, "g")
+  /\ stack' = [stack EXCEPT ![t] = <<>>]
+  /\ hs' = [hs EXCEPT ![t] = Orphan(t)]
+  /\ Begin(t, cmds, Ev(t, "dropg") @@ [g |-> hs[t][1].n], Rt(t, "dropg"))
+  /\ UNCHANGED <<spans, lsets, futs, pushed, nid, natt>>
 
 LcDrop(t) ==
   LET x == TopH(t) IN
@@ -291,7 +326,7 @@ LcDrop(t) ==
   /\ stack' = IF x.live THEN [stack EXCEPT ![t] = Front(@)] ELSE stack
   /\ hs' = [hs EXCEPT ![t] = Front(@)]
   /\ Begin(t, <<>>, Ev(t, "lcdrop") @@ [c |-> x.n], Rt(t, "lcdrop"))
-  /\ UNCHANGED <<spans, lsets, futs, nid, natt>>
+  /\ UNCHANGED <<spans, lsets, futs, pushed, nid, natt>>
 
 LineOk(t) == stack[t] # <<>> /\ Top(t).smp
 HasRoom(t) == Len(Top(t).q) < QCap
@@ -304,7 +339,7 @@ LEnter(t) ==
   /\ hs' = [hs EXCEPT ![t] = Append(@, [k |-> "l", n |-> l, live |-> live, full |-> FALSE])]
   /\ Bump(t)
   /\ Begin(t, <<>>, Ev(t, "lenter") @@ [l |-> l], Rt(t, "lenter") @@ (IF live THEN [l |-> l, id |-> l] ELSE [l |-> l]))
-  /\ UNCHANGED <<spans, lsets, futs, natt>>
+  /\ UNCHANGED <<spans, lsets, futs, pushed, natt>>
 
 LExit(t) ==
   LET x == TopH(t) IN
@@ -314,7 +349,7 @@ LExit(t) ==
               ELSE stack
   /\ hs' = [hs EXCEPT ![t] = Front(@)]
   /\ Begin(t, <<>>, Ev(t, "lexit") @@ [l |-> x.n], Rt(t, "lexit"))
-  /\ UNCHANGED <<spans, lsets, futs, nid, natt>>
+  /\ UNCHANGED <<spans, lsets, futs, pushed, nid, natt>>
 
 LEvent(t, withp) ==
   LET n == New(t) ok == LineOk(t) /\ HasRoom(t)
@@ -323,7 +358,7 @@ LEvent(t, withp) ==
   /\ stack' = IF ok THEN SetTop(t, [Top(t) EXCEPT !.q = Append(@, [id |-> 0, par |-> Top(t).nxt, k |-> "event", n |-> n, props |-> evt.props])]) ELSE stack
   /\ Bump(t)
   /\ Begin(t, <<>>, Ev(t, "levent") @@ [evt |-> evt], Rt(t, "levent"))
-  /\ UNCHANGED <<spans, lsets, futs, hs>>
+  /\ UNCHANGED <<spans, lsets, futs, pushed, hs>>
 
 \* `re`: the property closure itself calls into fastrace (current_local_parent()), as a closure that
 \* logs through a fastrace-aware logger or calls a #[trace] function does
@@ -336,7 +371,7 @@ LProps(t, re) ==
   /\ Begin(t, <<>>, Ev(t, "lprops") @@ [kvs |-> <<KV(n)>>, re |-> re],
            (IF boom THEN [panic |-> "already borrowed: BorrowMutError"] ELSE A!EmptyFn) @@
            Rt(t, "lprops") @@ [kvs |-> <<KV(n)>>, cc |-> IF LineOk(t) THEN 1 ELSE 0])
-  /\ UNCHANGED <<spans, lsets, futs, hs>>
+  /\ UNCHANGED <<spans, lsets, futs, pushed, hs>>
 
 \* LocalSpan::with_properties on the innermost local span the caller holds
 LWith(t, re) ==
@@ -351,7 +386,7 @@ LWith(t, re) ==
   /\ Begin(t, <<>>, Ev(t, "lwith") @@ [l |-> x.n, kvs |-> <<KV(n)>>, re |-> re],
            (IF boom THEN [panic |-> "already borrowed: BorrowMutError"] ELSE A!EmptyFn) @@
            Rt(t, "lwith") @@ [l |-> x.n, kvs |-> <<KV(n)>>, cc |-> IF x.live THEN 1 ELSE 0])
-  /\ UNCHANGED <<spans, lsets, futs, hs>>
+  /\ UNCHANGED <<spans, lsets, futs, pushed, hs>>
 
 \* Span::add_event / add_properties: a pseudo child span submitted at once
 SAttach(t, h, kind, withp) ==
@@ -367,7 +402,7 @@ SAttach(t, h, kind, withp) ==
                 Rt(t, "sevent") @@ [h |-> h, evt |-> [name |-> n, props |-> raw.props]])
      ELSE Begin(t, cmds, Ev(t, "sprops") @@ [h |-> h, kvs |-> <<KV(n)>>],
                 Rt(t, "sprops") @@ [h |-> h, kvs |-> <<KV(n)>>, cc |-> IF spans[h].st = "live" THEN 1 ELSE 0])
-  /\ UNCHANGED <<spans, lsets, futs, stack, hs>>
+  /\ UNCHANGED <<spans, lsets, futs, pushed, stack, hs>>
 
 SWith(t, h) ==
   LET n == New(t) IN
@@ -376,18 +411,20 @@ SWith(t, h) ==
   /\ Bump(t)
   /\ Begin(t, <<>>, Ev(t, "swith") @@ [h |-> h, kvs |-> <<KV(n)>>],
            Rt(t, "swith") @@ [h |-> h, kvs |-> <<KV(n)>>, cc |-> IF spans[h].st = "live" THEN 1 ELSE 0])
-  /\ UNCHANGED <<lsets, futs, stack, hs>>
+  /\ UNCHANGED <<lsets, futs, pushed, stack, hs>>
 
 PushC(t, h, ls) ==
   LET tok == IF spans[h].st = "live" THEN Sampled(Issue(h)) ELSE <<>>
       cmds == IF lsets[ls] # <<>> /\ tok # <<>> THEN <<Send(Submit(lsets[ls], tok))>> ELSE <<>> IN
+  /\ <<h, ls>> \notin pushed
+  /\ pushed' = pushed \cup {<<h, ls>>}
   /\ Begin(t, cmds, Ev(t, "pushc") @@ [h |-> h, ls |-> ls], Rt(t, "pushc"))
   /\ UNCHANGED <<spans, lsets, futs, stack, hs, nid, natt>>
 
 Cancel(t, h) ==
   LET cmds == IF spans[h].st = "live" /\ spans[h].cid # 0 THEN <<Force([k |-> "drop", c |-> spans[h].cid])>> ELSE <<>> IN
   /\ Begin(t, cmds, Ev(t, "cancel") @@ [h |-> h], Rt(t, "cancel"))
-  /\ UNCHANGED <<spans, lsets, futs, stack, hs, nid, natt>>
+  /\ UNCHANGED <<spans, lsets, futs, pushed, stack, hs, nid, natt>>
 
 DropSpan(t, h) ==
   LET s == spans[h]
@@ -397,7 +434,7 @@ DropSpan(t, h) ==
               (IF s.st = "live" /\ s.cid # 0 THEN <<Force([k |-> "commit", c |-> s.cid])>> ELSE <<>>) IN
   /\ spans' = [spans EXCEPT ![h].st = "done"]
   /\ Begin(t, cmds, Ev(t, "drop") @@ [h |-> h], Rt(t, "drop"))
-  /\ UNCHANGED <<lsets, futs, stack, hs, nid, natt>>
+  /\ UNCHANGED <<lsets, futs, pushed, stack, hs, nid, natt>>
 
 \* SpanContext::current_local_parent / from_span
 CtxL(t) ==
@@ -407,13 +444,13 @@ CtxL(t) ==
       ctx == IF has /\ tok # <<>> THEN [some |-> TRUE, tr |-> tok[1].tr, id |-> tok[1].par, smp |-> tok[1].smp] ELSE [some |-> FALSE] IN
   /\ Begin(t, <<>>, Ev(t, "ctxl"),
            IF boom THEN Rt(t, "ctxl") @@ [ctx |-> ctx, panic |-> "index out of bounds"] ELSE Rt(t, "ctxl") @@ [ctx |-> ctx])
-  /\ UNCHANGED <<spans, lsets, futs, stack, hs, nid, natt>>
+  /\ UNCHANGED <<spans, lsets, futs, pushed, stack, hs, nid, natt>>
 
 CtxS(t, h) ==
   LET tok == IF spans[h].st = "live" THEN Issue(h) ELSE <<>>
       ctx == IF tok # <<>> THEN [some |-> TRUE, tr |-> tok[1].tr, id |-> h, smp |-> tok[1].smp] ELSE [some |-> FALSE] IN
   /\ Begin(t, <<>>, Ev(t, "ctxs") @@ [h |-> h], Rt(t, "ctxs") @@ [h |-> h, ctx |-> ctx])
-  /\ UNCHANGED <<spans, lsets, futs, stack, hs, nid, natt>>
+  /\ UNCHANGED <<spans, lsets, futs, pushed, stack, hs, nid, natt>>
 
 ----------------------------------------------------------------------------
 (* adapters: future.rs (InSpan, EnterOnPoll), fastrace-futures (Stream / Sink InSpan).             *)
@@ -495,13 +532,13 @@ FDrop(t, f) ==
 Exit(t) ==
   /\ hs[t] = <<>>
   /\ Begin(t, IF pend[t] = <<>> THEN <<>> ELSE <<[mode |-> "exit", cmd |-> None, stage |-> "exit"]>>, Ev(t, "exit"), Rt(t, "exit"))
-  /\ UNCHANGED <<spans, lsets, futs, stack, hs, nid, natt>>
+  /\ UNCHANGED <<spans, lsets, futs, pushed, stack, hs, nid, natt>>
 
 Push(t) ==
   /\ cur[t] # <<>> /\ tst[t] = "live"
   /\ Advance(t, cur[t], a, inop[t])
   /\ hist' = Append(hist, [ev |-> "push", t |-> t])
-  /\ UNCHANGED <<reg, stack, hs, spans, lsets, futs, cph, ci, batch, cown, active, nid, nops, natt, ncyc, nfl, pc, quiet>>
+  /\ UNCHANGED <<reg, stack, hs, spans, lsets, futs, pushed, cph, ci, batch, cown, active, nid, nops, natt, ncyc, nfl, pc, quiet>>
 
 ----------------------------------------------------------------------------
 (* the collector (global_collector.rs: handle_commands) *)
@@ -604,7 +641,7 @@ Cyc ==
   /\ LET g == A!AbsStep(a, [ev |-> "cycbegin"]) IN
      IF reg = <<>> THEN Finish(<<>>, g, 0)
      ELSE a' = g /\ cph' = "drain" /\ ci' = 1 /\ UNCHANGED <<batch, cown, active>>
-  /\ UNCHANGED <<tst, reg, ring, pend, cur, inop, stack, hs, spans, lsets, futs, nid, nops, natt, nfl, pc, quiet>>
+  /\ UNCHANGED <<tst, reg, ring, pend, cur, inop, stack, hs, spans, lsets, futs, pushed, nid, nops, natt, nfl, pc, quiet>>
 
 Flush(t) ==
   /\ Enabled /\ Ready
@@ -614,7 +651,7 @@ Flush(t) ==
   /\ LET g == A!AbsStep(A!AbsStep(a, Ev(t, "flush")), [ev |-> "cycbegin"]) IN
      IF reg = <<>> THEN Finish(<<>>, g, t)
      ELSE a' = g /\ cph' = "drain" /\ ci' = 1 /\ cown' = t /\ UNCHANGED <<batch, active>>
-  /\ UNCHANGED <<tst, reg, ring, pend, cur, inop, stack, hs, spans, lsets, futs, nid, nops, natt, ncyc, pc, quiet>>
+  /\ UNCHANGED <<tst, reg, ring, pend, cur, inop, stack, hs, spans, lsets, futs, pushed, nid, nops, natt, ncyc, pc, quiet>>
 
 GhostDrain(g, t) == IF TrackCut THEN A!AbsStep(g, [ev |-> "drain", t |-> t]) ELSE g
 
@@ -646,7 +683,7 @@ Col ==
                   /\ tst' = [u \in Threads |-> IF tst[u] = "starting" THEN "live" ELSE tst[u]]
                   /\ Finish(batch, a, cown)
              ELSE reg' = reg1 /\ a' = a /\ cph' = "drain" /\ ci' = nxt /\ UNCHANGED <<batch, cown, active, tst>>
-  /\ UNCHANGED <<pend, cur, inop, stack, hs, spans, lsets, futs, nid, nops, natt, ncyc, nfl, pc, quiet>>
+  /\ UNCHANGED <<pend, cur, inop, stack, hs, spans, lsets, futs, pushed, nid, nops, natt, ncyc, nfl, pc, quiet>>
 
 \* a new thread's first touch of its sender registers the receiver; that needs the registry,
 \* which the collector holds for the whole sweep: the thread waits until the sweep is over
@@ -655,7 +692,7 @@ Spawn(t) ==
   /\ tst' = [tst EXCEPT ![t] = IF cph = "idle" THEN "live" ELSE "starting"]
   /\ reg' = IF cph = "idle" THEN Append(reg, t) ELSE reg
   /\ hist' = Append(hist, [ev |-> "spawn", t |-> t])
-  /\ UNCHANGED <<ring, pend, cur, inop, stack, hs, spans, lsets, futs, cph, ci, batch, cown, active, nid, nops, natt, ncyc, nfl, pc, quiet, a>>
+  /\ UNCHANGED <<ring, pend, cur, inop, stack, hs, spans, lsets, futs, pushed, cph, ci, batch, cown, active, nid, nops, natt, ncyc, nfl, pc, quiet, a>>
 
 ----------------------------------------------------------------------------
 (* programs *)
@@ -680,6 +717,7 @@ MenuOp(t) ==
   \/ M("dropg") /\ DropG(t)
   \/ M("lcstart") /\ LcStart(t)
   \/ M("lccollect") /\ LcCollect(t)
+  \/ M("collectopen") /\ (LcCollectOpen(t) \/ DropGOpen(t))
   \/ M("lcdrop") /\ LcDrop(t)
   \/ M("lenter") /\ LEnter(t)
   \/ M("lexit") /\ LExit(t)
@@ -786,7 +824,7 @@ QuietCycle ==
                                    deadrx |-> Cardinality({i \in DOMAIN d[1] : tst[d[1][i]] = "dead"})])
                ELSE g3 IN
      /\ reg' = d[1] /\ ring' = d[3] /\ active' = pr[1] /\ a' = g4
-  /\ UNCHANGED <<tst, pend, cur, inop, stack, hs, spans, lsets, futs, cph, ci, batch, cown, nid, nops, natt, ncyc, nfl, pc>>
+  /\ UNCHANGED <<tst, pend, cur, inop, stack, hs, spans, lsets, futs, pushed, cph, ci, batch, cown, nid, nops, natt, ncyc, nfl, pc>>
 
 Done == AllQuiet /\ quiet = 2
 
